@@ -372,7 +372,7 @@ func init() {
 			emit(sigCase("func(T0) ("+typeNames(rl)+")", []reflect.Type{typeOf(0)}, rl, []am.Value{{Type: typeOf(0)}}, want, false))
 		}
 		// struct forms: field lists from the menu
-		names := []string{"Alpha", "Beta", "Gamma"}
+		names := []string{"Alpha", "Beta", "Gamma", "Delta"}
 		tags := []string{"", "X", "x", ",typeOnly", ",subtype=s", "X,subtype=s", ",typeOnly,subtype=s", "Yy"}
 		var lists [][]fieldSpec
 		var rec3 func(cur []fieldSpec)
